@@ -138,3 +138,327 @@ Example C11_cycle_nonvacuous :
   /\ keys_nodup (map fst (fst (xml_parse true C11_example (-1)))) = true
   /\ populate (tag_of C11_example) (Dict (fst (xml_parse true C11_example (-1)))) = normalise_root C11_example.
 Proof. repeat split; vm_compute; reflexivity. Qed.
+
+(* ================================================================================================== *)
+(* added from Properties/C11_add.v (2026-10-01)                                              *)
+(* ================================================================================================== *)
+(* C11 additions: nested key paths on writing, reading without node numbering, the shape of every entry *)
+From Coq Require Import String.   (* string literals of the examples; imported first so the list names win *)
+From Coq Require Import NArith ZArith List Bool.
+From DictIO Require Import Chars Str Value Scalar SDict KeyPath Reader Expr Xml TreeSpec LayoutSpec MiscSpec SemProofs
+     XmlProofs XmlMoreProofs.
+Import ListNotations.
+
+(* ---- writing: every scalar leaf is the text of the element addressed by its key path ------------------ *)
+(* vocabulary (XmlMoreProofs):
+     ordinary_key k      the key makes a child element (it is not _content.., _attrib.., _..Opts, INCLUDE.., a comment key)
+     xml_tag_of_key k    the key as text without a running node number
+     xml_pos k kvs       number of ordinary entries in front of the entry k: the position of its child element
+     xml_pos_path t p    these positions along the key path p
+     elem_at e ps        the element reached from e through the child positions ps; tags_at e ps: the tags passed
+     leaf_text v         str(v), and the empty text for None *)
+Theorem C11_write_leaf_path : forall p k tag kvs v,
+  get_dpath (Dict kvs) (k :: p) = Some (Leaf v) -> forallb ordinary_key (k :: p) = true ->
+  elem_at (populate tag (Dict kvs)) (xml_pos_path (Dict kvs) (k :: p)) =
+    Some (Elem (xml_tag_of_key (last (k :: p) k)) [] (Some (leaf_text v)) [])
+  /\ tags_at (populate tag (Dict kvs)) (xml_pos_path (Dict kvs) (k :: p)) = map xml_tag_of_key (k :: p).
+Proof. exact populate_leaf_path. Qed.
+Print Assumptions C11_write_leaf_path.
+
+(* the same for whole subtrees: the subtree at a key path is written as the element at the corresponding positions *)
+Theorem C11_write_subtree_path : forall p k tag kvs c,
+  get_dpath (Dict kvs) (k :: p) = Some c -> forallb ordinary_key (k :: p) = true ->
+  elem_at (populate tag (Dict kvs)) (xml_pos_path (Dict kvs) (k :: p)) = Some (pop_child (last (k :: p) k, c))
+  /\ tags_at (populate tag (Dict kvs)) (xml_pos_path (Dict kvs) (k :: p)) = map xml_tag_of_key (k :: p).
+Proof. exact populate_path. Qed.
+Print Assumptions C11_write_subtree_path.
+
+(* and for the text of inner elements: the (last) _content entry of the dict at a key path is the text of the element
+   addressed by the path *)
+Theorem C11_write_content_path : forall p k tag kvs kvs',
+  get_dpath (Dict kvs) (k :: p) = Some (Dict kvs') -> forallb ordinary_key (k :: p) = true ->
+  exists e, elem_at (populate tag (Dict kvs)) (xml_pos_path (Dict kvs) (k :: p)) = Some e /\
+            tag_of e = xml_tag_of_key (last (k :: p) k) /\
+            elem_text e = match rev (filter content_key kvs') with
+                          | kt :: _ => Some (content_text (snd kt))
+                          | [] => None
+                          end.
+Proof. exact populate_content_path. Qed.
+Print Assumptions C11_write_content_path.
+
+(* non-vacuity: three levels, special keys in front (they make no element, so positions and keys differ), numbered
+   and repeated tags, a None leaf, a multi-line _content *)
+Definition sx := of_string.
+Definition C11_path_dict : list (key * tree) :=
+  [ (KS (sx "_xmlOpts"), Dict [(KS (sx "_rootTag"), Leaf (SStr (sx "root")))]);
+    (KS (sx "000001_a"), Leaf (SInt 1));
+    (KS (sx "_attributes"), Dict [(KS (sx "id"), Leaf (SInt 7))]);
+    (KS (sx "000002_a"), Dict
+       [ (KS (sx "_content"), Leaf (SStr (sx "l1" ++ [c_lf] ++ sx "l2")));
+         (KS (sx "b"), Leaf SNone);
+         (KS (sx "INCLUDE"), Leaf (SStr (sx "x")));
+         (KS (sx "c"), Dict [ (KS (sx "_attributes"), Dict [(KS (sx "u"), Leaf (SBool true))]);
+                              (KS (sx "000007_d"), Leaf (SFloat (sx "2.50")));
+                              (KS (sx "e"), Leaf (SBool false)) ]) ]) ].
+Example C11_write_leaf_path_nonvacuous :
+  let p := [KS (sx "000002_a"); KS (sx "c"); KS (sx "000007_d")] in
+  let p2 := [KS (sx "000002_a"); KS (sx "b")] in
+  get_dpath (Dict C11_path_dict) p = Some (Leaf (SFloat (sx "2.50"))) /\ forallb ordinary_key p = true /\
+  xml_pos_path (Dict C11_path_dict) p = [1; 1; 0]%nat /\
+  elem_at (populate (sx "root") (Dict C11_path_dict)) [1; 1; 0]%nat = Some (Elem (sx "d") [] (Some (sx "2.50")) []) /\
+  tags_at (populate (sx "root") (Dict C11_path_dict)) [1; 1; 0]%nat = [sx "a"; sx "c"; sx "d"] /\
+  get_dpath (Dict C11_path_dict) p2 = Some (Leaf SNone) /\
+  elem_at (populate (sx "root") (Dict C11_path_dict)) [1; 0]%nat = Some (Elem (sx "b") [] (Some []) []) /\
+  (exists e, elem_at (populate (sx "root") (Dict C11_path_dict)) [1]%nat = Some e /\ tag_of e = sx "a" /\
+             elem_text e = Some ([c_lf] ++ sx "l1" ++ [c_lf] ++ sx "l2" ++ [c_lf])) /\
+  populate (sx "root") (Dict C11_path_dict) =
+    Elem (sx "root") [(sx "id", sx "7")] None
+      [ Elem (sx "a") [] (Some (sx "1")) [];
+        Elem (sx "a") [] (Some ([c_lf] ++ sx "l1" ++ [c_lf] ++ sx "l2" ++ [c_lf]))
+          [ Elem (sx "b") [] (Some []) [];
+            Elem (sx "c") [(sx "u", sx "true")] None
+              [ Elem (sx "d") [] (Some (sx "2.50")) []; Elem (sx "e") [] (Some (sx "False")) [] ] ] ].
+Proof.
+  intros p p2.
+  assert (H1 : get_dpath (Dict C11_path_dict) p = Some (Leaf (SFloat (sx "2.50")))) by (vm_compute; reflexivity).
+  assert (H2 : forallb ordinary_key p = true) by (vm_compute; reflexivity).
+  assert (H3 : get_dpath (Dict C11_path_dict) p2 = Some (Leaf SNone)) by (vm_compute; reflexivity).
+  assert (H4 : forallb ordinary_key p2 = true) by (vm_compute; reflexivity).
+  assert (H5 : get_dpath (Dict C11_path_dict) [KS (sx "000002_a")] =
+               Some (Dict [ (KS (sx "_content"), Leaf (SStr (sx "l1" ++ [c_lf] ++ sx "l2")));
+                            (KS (sx "b"), Leaf SNone);
+                            (KS (sx "INCLUDE"), Leaf (SStr (sx "x")));
+                            (KS (sx "c"), Dict [ (KS (sx "_attributes"), Dict [(KS (sx "u"), Leaf (SBool true))]);
+                                                 (KS (sx "000007_d"), Leaf (SFloat (sx "2.50")));
+                                                 (KS (sx "e"), Leaf (SBool false)) ]) ])) by (vm_compute; reflexivity).
+  pose proof (C11_write_leaf_path _ _ (sx "root") _ _ H1 H2) as [A1 A2].
+  pose proof (C11_write_leaf_path _ _ (sx "root") _ _ H3 H4) as [B1 _].
+  pose proof (C11_write_content_path [] _ (sx "root") _ _ H5 eq_refl) as C1.
+  split; [exact H1|]. split; [exact H2|]. split; [vm_compute; reflexivity|].
+  split; [exact A1|]. split; [exact A2|]. split; [exact H3|]. split; [exact B1|]. split; [exact C1|].
+  vm_compute. reflexivity.
+Qed.
+
+(* ---- reading without node numbering (XmlParser(add_node_numbering=False)) ----------------------------- *)
+(* The class xml_ok_off (XmlMoreProofs) = xml_ok and, at every level below the root,
+     - the tags of sibling elements are pairwise distinct,
+     - every tag is off_tag: a plain word for parse_key (not true / false / on / off / none / null in any case, which
+       Python turns into the keys True / False / None, and no quote at either end), an ordinary key for the writer
+       (not _content.., _attrib.., _..Opts, INCLUDE.., BLOCKCOMMENT<n>, LINECOMMENT<n>), and not of the form
+       <1-6 digits>_<rest> (the writer would remove such a prefix as a node number).
+   Then the keys are the bare tags, in document order, pairwise distinct, and the result is literally xml_entries e. *)
+Theorem C11_numbering_off_distinct_tags : forall e c, xml_ok_off e = true -> counter_ok c ->
+  fst (xml_parse false e c) = xml_entries e
+  /\ map fst (fst (xml_parse false e c)) = map (fun ch => KS (tag_of ch)) (elem_children e)
+  /\ NoDup (map fst (fst (xml_parse false e c))).
+Proof. exact xml_off_distinct_tags. Qed.
+Print Assumptions C11_numbering_off_distinct_tags.
+
+(* writing what was read gives the element tree back up to text normalisation, as with numbering *)
+Theorem C11_numbering_off_write_inverts_read : forall e c, xml_ok_off e = true -> counter_ok c ->
+  populate (tag_of e) (Dict (fst (xml_parse false e c))) = normalise_root e.
+Proof. exact xml_off_write_inverts_read'. Qed.
+Print Assumptions C11_numbering_off_write_inverts_read.
+
+(* the cycle holds literally: no "up to the running node numbers" *)
+Theorem C11_numbering_off_cycle : forall e c c2, xml_ok_off e = true -> counter_ok c -> counter_ok c2 ->
+  fst (xml_parse false (populate (tag_of e) (Dict (fst (xml_parse false e c)))) c2) = fst (xml_parse false e c).
+Proof. exact xml_off_cycle'. Qed.
+Print Assumptions C11_numbering_off_cycle.
+
+(* and the entries read with numbering are, without the numbers, those read without numbering *)
+Theorem C11_numbering_on_off : forall e c c', xml_ok_off e = true -> counter_ok c -> counter_ok c' ->
+  unnumber (fst (xml_parse true e c)) = fst (xml_parse false e c').
+Proof. exact xml_on_off'. Qed.
+Print Assumptions C11_numbering_on_off.
+
+(* non-vacuity: three levels, attributes (one empty), typed, multi-line and missing text; the tag a occurs twice, but
+   not among siblings *)
+Definition C11_off_example : elem :=
+  Elem (sx "root") [(sx "ra", sx "'q'")] (Some (sx " rt "))
+    [ Elem (sx "a") [] (Some (sx "1.5")) [];
+      Elem (sx "b") [] (Some (sx " true ")) [];
+      Elem (sx "c") [] (Some ([c_lf; c_sp] ++ sx "line1  " ++ [c_cr; c_lf; c_tab] ++ sx "line2 " ++ [c_lf; c_sp])) [];
+      Elem (sx "d") [] None [];
+      Elem (sx "f") [(sx "x", sx "1"); (sx "y", []); (sx "z", sx "TRUE")] None [];
+      Elem (sx "g") [(sx "k", sx "v")] (Some (sx "mixed"))
+        [ Elem (sx "a") [] (Some (sx "+5")) [];
+          Elem (sx "i") [] None
+            [ Elem (sx "j") [] (Some (sx "007")) []; Elem (sx "k") [] (Some (sx "it's")) [] ] ] ].
+Definition C11_off_example_entries : list (key * tree) :=
+  [ (KS (sx "a"), Dict [(k_content, Leaf (SFloat (sx "1.5")))]);
+    (KS (sx "b"), Dict [(k_content, Leaf (SBool true))]);
+    (KS (sx "c"), Dict [(k_content, Leaf (SStr (sx "line1" ++ [c_lf] ++ sx "line2")))]);
+    (KS (sx "d"), Dict []);
+    (KS (sx "f"), Dict [(k_attributes, Dict [(KS (sx "x"), Leaf (SInt 1)); (KS (sx "z"), Leaf (SBool true))])]);
+    (KS (sx "g"), Dict [ (KS (sx "a"), Dict [(k_content, Leaf (SInt 5))]);
+                         (KS (sx "i"), Dict [ (KS (sx "j"), Dict [(k_content, Leaf (SInt 7))]);
+                                              (KS (sx "k"), Dict [(k_content, Leaf (SStr (sx "it's")))]) ]);
+                         (k_attributes, Dict [(KS (sx "k"), Leaf (SStr (sx "v")))]) ]) ].
+Example C11_numbering_off_nonvacuous :
+  xml_ok_off C11_off_example = true
+  /\ fst (xml_parse false C11_off_example (-1)) = C11_off_example_entries
+  /\ xml_entries C11_off_example = C11_off_example_entries
+  /\ fst (xml_parse false (populate (tag_of C11_off_example) (Dict (fst (xml_parse false C11_off_example (-1))))) 999997)
+     = fst (xml_parse false C11_off_example (-1))
+  /\ unnumber (fst (xml_parse true C11_off_example 999997)) = fst (xml_parse false C11_off_example (-1))
+  /\ populate (tag_of C11_off_example) (Dict (fst (xml_parse false C11_off_example (-1)))) = normalise_root C11_off_example.
+Proof.
+  assert (H : xml_ok_off C11_off_example = true) by (vm_compute; reflexivity).
+  assert (Hc : counter_ok (-1)) by (unfold counter_ok; split; discriminate).
+  assert (Hc2 : counter_ok 999997) by (unfold counter_ok; split; discriminate).
+  destruct (C11_numbering_off_distinct_tags _ _ H Hc) as (E1 & _ & _).
+  assert (E2 : xml_entries C11_off_example = C11_off_example_entries) by (vm_compute; reflexivity).
+  split; [exact H|]. split; [rewrite E1; exact E2|]. split; [exact E2|].
+  split; [exact (C11_numbering_off_cycle _ _ _ H Hc Hc2)|].
+  split; [exact (C11_numbering_on_off _ _ _ H Hc2 Hc)|].
+  exact (C11_numbering_off_write_inverts_read _ _ H Hc).
+Qed.
+
+(* FINDING (repeated sibling tags without numbering): the entries collide.  Of several siblings with the same tag only
+   the LAST one survives, at the position of the FIRST; text and attributes of the earlier ones are lost (here: 1.5 and
+   id="1" of the first a, and the first d).  The real library does the same (dict assignment parsed_dict[key] = ..). *)
+Definition C11_off_repeated : elem :=
+  Elem (sx "root") [] None
+    [ Elem (sx "a") [(sx "id", sx "1")] (Some (sx "1.5")) [];
+      Elem (sx "b") [] (Some (sx "x")) [];
+      Elem (sx "a") [] (Some (sx "two")) [];
+      Elem (sx "c") [] None [ Elem (sx "d") [] (Some (sx "1")) []; Elem (sx "d") [(sx "k", sx "v")] None [] ] ].
+Example C11_numbering_off_repeated_tags_finding :
+  xml_ok C11_off_repeated = true /\ sib_ok C11_off_repeated = false
+  /\ fst (xml_parse false C11_off_repeated (-1)) =
+       [ (KS (sx "a"), Dict [(k_content, Leaf (SStr (sx "two")))]);
+         (KS (sx "b"), Dict [(k_content, Leaf (SStr (sx "x")))]);
+         (KS (sx "c"), Dict [(KS (sx "d"), Dict [(k_attributes, Dict [(KS (sx "k"), Leaf (SStr (sx "v")))])])]) ]
+  /\ length (fst (xml_parse false C11_off_repeated (-1))) = 3%nat /\ length (elem_children C11_off_repeated) = 4%nat
+  /\ populate (sx "root") (Dict (fst (xml_parse false C11_off_repeated (-1)))) =
+       Elem (sx "root") [] None
+         [ Elem (sx "a") [] (Some (sx "two")) []; Elem (sx "b") [] (Some (sx "x")) [];
+           Elem (sx "c") [] None [ Elem (sx "d") [(sx "k", sx "v")] None [] ] ]
+  /\ map unnumber_key (map fst (fst (xml_parse true C11_off_repeated (-1)))) =
+       [KS (sx "a"); KS (sx "b"); KS (sx "a"); KS (sx "c")].
+Proof. repeat split; vm_compute; reflexivity. Qed.
+
+(* FINDING (a tag that is a special key for the writer, here _content, without numbering): the element is read under
+   the key _content, which the writer takes for the text of the parent: the element is not written back, its dict is
+   written as the parent's text.  With numbering the key is 000000__content and the element survives.  The real
+   library does the same. *)
+Definition C11_off_special : elem :=
+  Elem (sx "root") [] None [ Elem (sx "_content") [] (Some (sx "4")) []; Elem (sx "x") [] (Some (sx "5")) [] ].
+Example C11_numbering_off_special_tag_finding :
+  xml_ok C11_off_special = true /\ sib_ok C11_off_special = false
+  /\ fst (xml_parse false C11_off_special (-1)) =
+       [ (KS (sx "_content"), Dict [(k_content, Leaf (SInt 4))]); (KS (sx "x"), Dict [(k_content, Leaf (SInt 5))]) ]
+  /\ populate (sx "root") (Dict (fst (xml_parse false C11_off_special (-1)))) =
+       Elem (sx "root") [] (Some (sx "{'_content': 4}")) [ Elem (sx "x") [] (Some (sx "5")) [] ]
+  /\ populate (sx "root") (Dict (fst (xml_parse true C11_off_special (-1)))) =
+       Elem (sx "root") [] None [ Elem (sx "_content") [] (Some (sx "4")) []; Elem (sx "x") [] (Some (sx "5")) [] ].
+Proof. repeat split; vm_compute; reflexivity. Qed.
+
+(* NOTE (tags that parse_key does not keep as strings, without numbering): for the tags true and on the model keeps the
+   string keys "true" and "on" (float / bool / None keys are outside the modelled key domain, Scalar.scalar_to_key);
+   the real library turns both into the key True, so that the two elements collide ({True: {'_content': 2}}) and are
+   written back as one element <True>.  off_tag excludes these tags; this is where model and code differ. *)
+Definition C11_off_words : elem :=
+  Elem (sx "root") [] None [ Elem (sx "true") [] (Some (sx "1")) []; Elem (sx "on") [] (Some (sx "2")) [] ].
+Example C11_numbering_off_word_tag_note :
+  xml_ok C11_off_words = true /\ off_tag (sx "true") = false /\ off_tag (sx "on") = false /\ off_tag (sx "None") = false
+  /\ off_tag (sx "_content") = false /\ off_tag (sx "12_a") = false /\ off_tag (sx "a12_b") = true /\ off_tag (sx "_") = true
+  /\ fst (xml_parse false C11_off_words (-1)) =
+       [ (KS (sx "true"), Dict [(k_content, Leaf (SInt 1))]); (KS (sx "on"), Dict [(k_content, Leaf (SInt 2))]) ].
+Proof. repeat split; vm_compute; reflexivity. Qed.
+
+(* ---- reading with numbering: the shape of every entry --------------------------------------------------- *)
+(* For every element e of the class and every i: the i-th child element <tag attrs>text kids</tag> makes the i-th
+   entry (and there are no other entries).  Its key is the tag with a six-digit running number in front
+   (C11_numbering_removed takes it off again); its value is ALWAYS a dict (also for an element with text only, or
+   with nothing at all), made of
+     - for an element without child elements: _content = the typed, normalised text, if the text is not blank
+       (content_part);   for an element with child elements: the entries of these, recursively - this very theorem
+       applies to them, the child is in the class again and its entries are its own xml_parse result - and NO _content
+       (text next to child elements is dropped),
+     - then _attributes = the attributes with non-empty value, typed, if the element has attributes at all
+       (attrs_part). *)
+Theorem C11_entry_shape : forall e c, xml_ok e = true -> counter_ok c ->
+  length (fst (xml_parse true e c)) = length (elem_children e) /\
+  forall i tag attrs text kids, nth_error (elem_children e) i = Some (Elem tag attrs text kids) ->
+  exists n body, (0 <= n < 1000000)%Z /\
+    nth_error (fst (xml_parse true e c)) i =
+      Some (KS (pad6 (Z.to_N n) ++ [c_us] ++ tag), Dict (body ++ attrs_part attrs)) /\
+    match kids with
+    | [] => body = content_part text
+    | _ => xml_ok (Elem tag attrs text kids) = true /\
+           exists c', counter_ok c' /\ body = fst (xml_parse true (Elem tag attrs text kids) c')
+    end.
+Proof. exact xml_entry_shape. Qed.
+Print Assumptions C11_entry_shape.
+
+(* the same by lookups: what is found under _content and _attributes in the i-th entry *)
+Theorem C11_entry_lookup : forall e c i tag attrs text kids k v, xml_ok e = true -> counter_ok c ->
+  nth_error (elem_children e) i = Some (Elem tag attrs text kids) ->
+  nth_error (fst (xml_parse true e c)) i = Some (k, v) ->
+  unnumber_key k = KS tag /\
+  exists d, v = Dict d /\
+    alookup k_content d = match kids with [] => typed_content text | _ => None end /\
+    alookup k_attributes d = typed_attributes attrs /\
+    match kids with
+    | [] => d = content_part text ++ attrs_part attrs
+    | _ => exists c', counter_ok c' /\ d = fst (xml_parse true (Elem tag attrs text kids) c') ++ attrs_part attrs
+    end.
+Proof. exact xml_entry_lookup. Qed.
+Print Assumptions C11_entry_lookup.
+
+(* non-vacuity: entry 5 of the example above (element g: attributes, text next to children, two levels of children),
+   read with the counter about to wrap; entry 4 (element f: attributes only, one of them empty); entry 3 (element d:
+   nothing at all, still a dict) *)
+Example C11_entry_shape_nonvacuous :
+  let e := C11_off_example in
+  let g := Elem (sx "g") [(sx "k", sx "v")] (Some (sx "mixed"))
+             [ Elem (sx "a") [] (Some (sx "+5")) [];
+               Elem (sx "i") [] None [ Elem (sx "j") [] (Some (sx "007")) []; Elem (sx "k") [] (Some (sx "it's")) [] ] ] in
+  xml_ok e = true /\ nth_error (elem_children e) 5 = Some g /\
+  (exists n body, (0 <= n < 1000000)%Z /\
+     nth_error (fst (xml_parse true e 999997)) 5 =
+       Some (KS (pad6 (Z.to_N n) ++ [c_us] ++ sx "g"), Dict (body ++ attrs_part [(sx "k", sx "v")])) /\
+     xml_ok g = true /\ exists c', counter_ok c' /\ body = fst (xml_parse true g c')) /\
+  nth_error (fst (xml_parse true e 999997)) 5 =
+    Some (KS (sx "000003_g"),
+          Dict [ (KS (sx "000004_a"), Dict [(k_content, Leaf (SInt 5))]);
+                 (KS (sx "000005_i"), Dict [ (KS (sx "000006_j"), Dict [(k_content, Leaf (SInt 7))]);
+                                             (KS (sx "000007_k"), Dict [(k_content, Leaf (SStr (sx "it's")))]) ]);
+                 (k_attributes, Dict [(KS (sx "k"), Leaf (SStr (sx "v")))]) ]) /\
+  nth_error (fst (xml_parse true e 999997)) 4 =
+    Some (KS (sx "000002_f"), Dict [(k_attributes, Dict [(KS (sx "x"), Leaf (SInt 1)); (KS (sx "z"), Leaf (SBool true))])]) /\
+  nth_error (fst (xml_parse true e 999997)) 3 = Some (KS (sx "000001_d"), Dict []) /\
+  nth_error (fst (xml_parse true e 999997)) 0 = Some (KS (sx "999998_a"), Dict [(k_content, Leaf (SFloat (sx "1.5")))]).
+Proof.
+  intros e g.
+  assert (H : xml_ok e = true) by (vm_compute; reflexivity).
+  assert (Hc : counter_ok 999997) by (unfold counter_ok; split; discriminate).
+  assert (Hi : nth_error (elem_children e) 5 = Some g) by reflexivity.
+  destruct (C11_entry_shape e 999997 H Hc) as [_ S].
+  split; [exact H|]. split; [exact Hi|]. split; [exact (S 5%nat _ _ _ _ Hi)|].
+  repeat split; vm_compute; reflexivity.
+Qed.
+
+Example C11_entry_lookup_nonvacuous :
+  let e := C11_off_example in
+  let k := KS (sx "000002_f") in
+  let v := Dict [(k_attributes, Dict [(KS (sx "x"), Leaf (SInt 1)); (KS (sx "z"), Leaf (SBool true))])] in
+  xml_ok e = true /\
+  nth_error (elem_children e) 4 = Some (Elem (sx "f") [(sx "x", sx "1"); (sx "y", []); (sx "z", sx "TRUE")] None []) /\
+  nth_error (fst (xml_parse true e 999997)) 4 = Some (k, v) /\
+  unnumber_key k = KS (sx "f") /\
+  exists d, v = Dict d /\ alookup k_content d = None /\
+            alookup k_attributes d = Some (Dict [(KS (sx "x"), Leaf (SInt 1)); (KS (sx "z"), Leaf (SBool true))]).
+Proof.
+  intros e k v.
+  assert (H : xml_ok e = true) by (vm_compute; reflexivity).
+  assert (Hc : counter_ok 999997) by (unfold counter_ok; split; discriminate).
+  assert (Hi : nth_error (elem_children e) 4 = Some (Elem (sx "f") [(sx "x", sx "1"); (sx "y", []); (sx "z", sx "TRUE")] None []))
+    by reflexivity.
+  assert (Hk : nth_error (fst (xml_parse true e 999997)) 4 = Some (k, v)) by (vm_compute; reflexivity).
+  destruct (C11_entry_lookup e 999997 4%nat _ _ _ _ k v H Hc Hi Hk) as (U & d & Ev & L1 & L2 & _).
+  split; [exact H|]. split; [exact Hi|]. split; [exact Hk|]. split; [exact U|].
+  exists d. split; [exact Ev|]. split; [exact L1|]. rewrite L2. vm_compute. reflexivity.
+Qed.
